@@ -15,12 +15,17 @@ let rec int_of_nat = function O -> 0 | S n -> 1 + int_of_nat n
 let strs l = String.concat " " (List.map (fun z -> string_of_int (int_of_z z)) l)
 let res_str f = function C02_Ok v -> "OK " ^ f v | C02_FMatrixError -> "EXC FMatrixError" | C02_DivByZero -> "EXC DivByZero"
 
+(* an argument "chk" before the case file: the model of the build with DUNE_FMatrix_WITH_CHECKING *)
+let chk = Array.exists (fun a -> a = "chk") Sys.argv
+let m_solve ops a b piv = if chk then c02_solve_chk ops a b piv else c02_solve ops a b piv
+let m_invert ops a piv = if chk then c02_invert_chk ops a piv else c02_invert ops a piv
+
 let () =
-  let ic = open_in Sys.argv.(1) in
+  let ic = open_in Sys.argv.(Array.length Sys.argv - 1) in
   (try while true do
     let line = input_line ic in
     let t = Array.of_list (List.filter (fun s -> s <> "") (String.split_on_char ' ' (String.trim line))) in
-    let p = int_of_string t.(0) and kind = t.(1) and op = t.(2) and n = int_of_string t.(3) and piv = t.(4) <> "0" in
+    let p = int_of_string t.(0) and kind = t.(1) and op = t.(2) and n = int_of_string t.(3) and piv = t.(4) <> "0" (* 2 = default argument = true *) in
     let ops = c02_zp (z_of_int p) in
     let v = Array.map (fun s -> z_of_int (((int_of_string s) mod p + p) mod p)) (Array.sub t 5 (Array.length t - 5)) in
     let mat off = List.init n (fun i -> List.init n (fun j -> v.(off + i * n + j))) in
@@ -29,15 +34,38 @@ let () =
     let specdet a = if n > 6 then " # -" else " # " ^ string_of_int (int_of_z (c02_spec_det ops (nat_of_int n) a)) in
     let out =
       match kind, op with
-      | "D", "nsq" ->
+      | ("D" | "F"), "nsq" ->
           let a = List.init n (fun _ -> List.init (int_of_string t.(4)) (fun _ -> z_of_int 1)) in
           let b = List.init n (fun _ -> Z0) in
-          String.concat " " [ (match c02_solve ops a b true with C02_Ok _ -> "OK" | C02_FMatrixError -> "EXC FMatrixError" | C02_DivByZero -> "EXC DivByZero");
+          String.concat " " [ (match m_solve ops a b true with C02_Ok _ -> "OK" | C02_FMatrixError -> "EXC FMatrixError" | C02_DivByZero -> "EXC DivByZero");
                               (match c02_determinant ops a true with C02_Ok _ -> "OK" | C02_FMatrixError -> "EXC FMatrixError" | C02_DivByZero -> "EXC DivByZero");
-                              (match c02_invert ops a true with C02_Ok _ -> "OK" | C02_FMatrixError -> "EXC FMatrixError" | C02_DivByZero -> "EXC DivByZero") ]
-      | ("F" | "D"), "solve" -> let a = mat 0 in res_str strs (c02_solve ops a (vec (n * n)) piv) ^ " | U" ^ specdet a
-      | ("F" | "D"), "det" -> let a = mat 0 in res_str (fun d -> strs [d]) (c02_determinant ops a piv) ^ " | U" ^ specdet a
-      | ("F" | "D"), "invert" -> let a = mat 0 in res_str flat (c02_invert ops a piv) ^ specdet a
+                              (match m_invert ops a true with C02_Ok _ -> "OK" | C02_FMatrixError -> "EXC FMatrixError" | C02_DivByZero -> "EXC DivByZero") ]
+      | ("F" | "D" | "X" | "Y"), "solve" -> let a = mat 0 in res_str strs (m_solve ops a (vec (n * n)) piv) ^ " | U" ^ specdet a
+      | ("F" | "D" | "X" | "Y"), "det" -> let a = mat 0 in res_str (fun d -> strs [d]) (c02_determinant ops a piv) ^ " | U" ^ specdet a
+      | ("F" | "D" | "X" | "Y"), "invert" -> let a = mat 0 in res_str flat (m_invert ops a piv) ^ specdet a
+      | ("F" | "D" | "X" | "Y"), "seq" ->
+          (* det, solve, invert, det of the inverse, invert back, solve again — composed from the model functions *)
+          let a = mat 0 and b = vec (n * n) in
+          let exc st = function C02_FMatrixError -> "EXC FMatrixError @" ^ st | C02_DivByZero -> "EXC DivByZero @" ^ st | C02_Ok _ -> "?" in
+          (match c02_determinant ops a piv with
+           | C02_Ok d ->
+             (match m_solve ops a b piv with
+              | C02_Ok x ->
+                (match m_invert ops a piv with
+                 | C02_Ok bi ->
+                   (match c02_determinant ops bi piv with
+                    | C02_Ok d2 ->
+                      (match m_invert ops bi piv with
+                       | C02_Ok a2 ->
+                         (match m_solve ops a2 b piv with
+                          | C02_Ok x2 -> "OK " ^ strs [d] ^ " ; " ^ strs x ^ " ; " ^ flat bi ^ " ; " ^ strs [d2] ^ " ; " ^ strs x2
+                                         ^ " | " ^ (if a2 = a then "U" else "MOD")
+                          | r -> exc "solve2" r)
+                       | r -> exc "invert2" r)
+                    | r -> exc "det2" r)
+                 | r -> exc "invert" r)
+              | r -> exc "solve" r)
+           | r -> exc "det" r) ^ specdet a
       | ("F" | "D"), "lu" ->
           (match c02_lu ops c02_ElimPivot (nat_of_int n) piv (mat 0) (List.init n nat_of_int) with
            | C02_LU_Ok (lu, pv) -> "OK " ^ String.concat " " (List.map (fun k -> string_of_int (int_of_nat k)) pv) ^ " ; " ^ flat lu
